@@ -4,6 +4,7 @@ import (
 	"fmt"
 	"go/token"
 	"go/types"
+	"sort"
 	"strings"
 
 	"golang.org/x/tools/go/ssa"
@@ -308,6 +309,10 @@ func C12(p *Prog, r *Run) {
 		r.Check(okL, "standard.bias-default", p.Pos(ls.Pos()), "bias nodes are loaded with 1.0 when not supplied", "LoadSensors does not load 1.0 into the bias nodes when they are not supplied")
 	})
 
+	r.Rule("C12.5", "index layout of the translation: neurons are numbered bias, input, output, hidden with chained start indices; activation type and id->index entry are written under the same index; connections and biases use that same lookup; the solver is built from exactly these arrays and counts", func() {
+		r.c12Layout()
+	})
+
 	r.Rule("C12.4", "sum-then-activate: the standard sweep adds ConnectionWeight*source.GetActiveOut() for every incoming link and activates from that sum; the fast sweeps add signal[source]*weight into signal[target]", func() {
 		as := p.Func(PkgN, "Network.ActivateSteps")
 		r.Fn(FuncName(as))
@@ -401,4 +406,167 @@ func C12(p *Prog, r *Run) {
 		r.Check(nSum == 2, "fast.recursive.sum", p.Pos(ra.Pos()), "processed[node] += signal[adj]*matrix[adj][node] (last activation on cycles)", fmt.Sprintf("recursive activation sums its inputs at %d site(s) as signal[adj]*matrix[adj][node]; expected the forward and the recurrent case", nSum))
 		_ = token.ADD
 	})
+}
+
+// c12Layout implements C12.5.
+func (r *Run) c12Layout() {
+	p := r.P
+	fn := p.Func(PkgN, "Network.FastNetworkSolver")
+	pl := p.Func(PkgN, "processList")
+	pic := p.Func(PkgN, "Network.processIncomingConnections")
+	ctor := p.Func(PkgN, "NewFastModularNetworkSolver")
+	r.Fn(FuncName(fn), FuncName(pl))
+	tm := NewTermer(fn)
+	roleName := map[string]string{}
+	for _, n := range []string{"HiddenNeuron", "InputNeuron", "OutputNeuron", "BiasNeuron"} {
+		roleName[p.Const(PkgN, n).Val().ExactString()] = n
+	}
+	// role of a node list: the neuron type under which elements are appended to it, or Outputs
+	roleOf := func(v ssa.Value) string {
+		if t := tm.Of(v); t.String() == "recv.Outputs" {
+			return "OutputNeuron"
+		}
+		role := ""
+		for _, f := range phiWeb(v).Feeders {
+			c, ok := f.(*ssa.Call)
+			if !ok {
+				continue
+			}
+			if _, elems, ok := appendCall(c); !ok || len(elems) != 1 {
+				continue
+			} else {
+				for _, g := range Guards(c.Block()) {
+					b, isB := g.Cond.(*ssa.BinOp)
+					if !isB || b.Op != token.EQL || !g.True {
+						continue
+					}
+					if fieldChainOn(tm.Of(b.X), elems[0], "NeuronType") {
+						if k := constTermOf(b.Y); k != nil {
+							if role != "" && role != roleName[k.Name] {
+								return "mixed"
+							}
+							role = roleName[k.Name]
+						}
+					}
+				}
+			}
+		}
+		return role
+	}
+	calls := CallsTo(fn, pl)
+	sort.Slice(calls, func(i, j int) bool { return instrBefore(calls[i], calls[j]) })
+	var roles []string
+	okChain := len(calls) == 4
+	for i, c := range calls {
+		a := c.Common().Args
+		roles = append(roles, roleOf(a[1]))
+		if i == 0 {
+			okChain = okChain && IsConstIntValue(a[0], 0)
+		} else {
+			okChain = okChain && a[0] == calls[i-1].Value() && a[2] == calls[0].Common().Args[2] && a[3] == calls[0].Common().Args[3]
+		}
+	}
+	want := []string{"BiasNeuron", "InputNeuron", "OutputNeuron", "HiddenNeuron"}
+	r.Check(okChain && fmt.Sprint(roles) == fmt.Sprint(want), "layout.order", p.Pos(fn.Pos()), "indices are assigned to bias, input, output, hidden neurons in this order, each group starting where the previous ended",
+		fmt.Sprintf("neurons are numbered in the order %v (chained start indices and shared arrays=%v); the fast solver expects bias, input, output, hidden: sensors are loaded into and outputs read from the wrong neurons", roles, okChain))
+	if len(calls) == 0 {
+		return
+	}
+	acts, lookup := calls[0].Common().Args[2], calls[0].Common().Args[3]
+	// connections
+	pcs := CallsTo(fn, pic)
+	got := map[string]bool{}
+	var biases ssa.Value
+	okShared := len(pcs) > 0
+	for _, c := range pcs {
+		a := c.Common().Args
+		got[roleOf(a[1])] = true
+		if biases == nil {
+			biases = a[2]
+		}
+		okShared = okShared && a[2] == biases && a[3] == lookup
+	}
+	r.Check(got["HiddenNeuron"] && got["OutputNeuron"] && okShared, "layout.connections", p.Pos(fn.Pos()), "incoming links of hidden and output neurons are translated with the same id->index lookup and bias array",
+		fmt.Sprintf("incoming connections are translated for %v with shared lookup/bias array=%v; hidden and output neurons must both be covered", keysOf(got), okShared))
+	// constructor
+	cs := CallsTo(fn, ctor)
+	if len(cs) == 1 {
+		a := cs[0].Common().Args
+		at := callArgTerms(tm, cs[0].Common())
+		okIn := at[1].Op == "len" && roleOf(at[1].Args[0].V) == "InputNeuron"
+		okOut := at[2].String() == "len(recv.Outputs)"
+		okTot := at[3].String() == "len(recv.allNodes)"
+		// bias count: incremented where the bias list grows, or its length
+		okBias := false
+		if at[0].Op == "len" && roleOf(at[0].Args[0].V) == "BiasNeuron" {
+			okBias = true
+		}
+		for _, f := range phiWeb(a[0]).Feeders {
+			if b, ok := f.(*ssa.BinOp); ok && b.Op == token.ADD && constTermOf(b.Y) != nil && constTermOf(b.Y).Name == "1" {
+				for _, g := range Guards(b.Block()) {
+					if bb, ok := g.Cond.(*ssa.BinOp); ok && bb.Op == token.EQL && g.True {
+						if k := constTermOf(bb.Y); k != nil && roleName[k.Name] == "BiasNeuron" {
+							okBias = true
+						}
+					}
+				}
+			}
+		}
+		r.Check(okBias && okIn && okOut && okTot && a[4] == acts && a[6] == biases, "layout.constructor", p.Pos(cs[0].Pos()), "solver built from (bias count, input count, output count, total, the filled activation array, connections, the filled bias array)",
+			fmt.Sprintf("the solver is not built from the counts and arrays the translation filled (bias count=%v input count=%v output count=%v total=%v activations=%v biases=%v)", okBias, okIn, okOut, okTot, a[4] == acts, a[6] == biases))
+	} else {
+		r.Bad("layout.constructor", p.Pos(fn.Pos()), fmt.Sprintf("%d constructor calls", len(cs)))
+	}
+	// processList body
+	ptm := NewTermer(pl)
+	var idxV ssa.Value
+	okAct, okMap := false, false
+	Instrs(pl, func(_ *ssa.BasicBlock, _ int, in ssa.Instruction) {
+		switch x := in.(type) {
+		case *ssa.Store:
+			if ia, ok := x.Addr.(*ssa.IndexAddr); ok && isParamIdx(ptm.Of(ia.X), 2) {
+				vt := ptm.Of(x.Val)
+				if vt.Op == "field" && vt.Name == "ActivationType" && vt.Args[0].Op == "elem" && isParamIdx(vt.Args[0].Args[0], 1) {
+					okAct = true
+					idxV = ia.Index
+				}
+			}
+		case *ssa.MapUpdate:
+			kt := ptm.Of(x.Key)
+			if isParamIdx(ptm.Of(x.Map), 3) && kt.Op == "field" && kt.Name == "Id" && kt.Args[0].Op == "elem" && isParamIdx(kt.Args[0].Args[0], 1) {
+				okMap = idxV != nil && x.Value == idxV
+				if idxV == nil {
+					idxV = x.Value
+					okMap = true
+				}
+			}
+		}
+	})
+	// both under the same index value
+	same := false
+	Instrs(pl, func(_ *ssa.BasicBlock, _ int, in ssa.Instruction) {
+		if mu, ok := in.(*ssa.MapUpdate); ok && idxV != nil && mu.Value == idxV {
+			same = true
+		}
+	})
+	okStep := false
+	if ph, ok := idxV.(*ssa.Phi); ok {
+		init, inc := false, false
+		for _, e := range ph.Edges {
+			if isParamIdx(ptm.Of(e), 0) {
+				init = true
+			} else if b, ok := e.(*ssa.BinOp); ok && b.Op == token.ADD && b.X == ssa.Value(ph) && constTermOf(b.Y) != nil && constTermOf(b.Y).Name == "1" {
+				inc = true
+			}
+		}
+		okRet := false
+		for _, b := range pl.Blocks {
+			if ret, ok := b.Instrs[len(b.Instrs)-1].(*ssa.Return); ok && ret.Results[0] == ssa.Value(ph) {
+				okRet = true
+			}
+		}
+		okStep = init && inc && okRet
+	}
+	r.Check(okAct && okMap && same && okStep, "layout.processList", p.Pos(pl.Pos()), "activations[i] and lookup[id] are written under the same i, i runs from the start index by one per neuron and is returned",
+		fmt.Sprintf("processList: activation stored=%v id->index stored=%v under the same index=%v index runs start,start+1,.. and is returned=%v", okAct, okMap, same, okStep))
 }
